@@ -57,6 +57,7 @@ type Run struct {
 	notApplicable    map[string]int
 	aborted          bool // a family was cut short after many failures: no second rounds
 	crossOK, crossNo int
+	coverN, coverSat int
 	deadline         time.Time
 	overBudget       int
 	engineErr        []string
@@ -109,6 +110,7 @@ func (r *Run) discharge(vcs []*VC) []*OblResult {
 				return
 			}
 			res := Solve(vc.B, vc.Query, r.workFile(vc.Name), r.Timeout, r.Cross)
+			r.vacuity(vc, r.workFile(vc.Name))
 			or.res, or.Backend, or.Ms, or.File = res, res.Backend, res.Ms, res.File
 			switch res.Status {
 			case "unsat":
@@ -218,6 +220,9 @@ func (r *Run) pipeline(n int, gen func(i int) (*VC, error)) []*OblResult {
 			return
 		}
 		res := Solve(vc.B, vc.Query, r.workFile(vc.Name), timeout, r.Cross && !second)
+		if !second {
+			r.vacuity(vc, r.workFile(vc.Name))
+		}
 		or.res, or.Backend, or.Ms, or.File = res, res.Backend, res.Ms, res.File
 		switch res.Status {
 		case "unsat":
@@ -295,6 +300,30 @@ func (r *Run) pipeline(n int, gen func(i int) (*VC, error)) []*OblResult {
 		}
 	}
 	return res
+}
+
+// vacuity (thorough tier): the hypotheses of an obligation group (the
+// function's requires, the case's pins, assumed callee postconditions, loop
+// invariants) must be satisfiable - a contradictory set would discharge
+// anything.
+func (r *Run) vacuity(vc *VC, file string) {
+	if !r.Cross || len(vc.Query.Hyps) == 0 {
+		return
+	}
+	q := &Query{Hyps: nil, Goals: nil}
+	for _, h := range vc.Query.Hyps {
+		q.Goals = append(q.Goals, NamedTerm{"hyp", h})
+	}
+	st := Cover(vc.B, q, strings.TrimSuffix(file, ".smt2")+".cover.smt2", r.Timeout)
+	r.mu.Lock()
+	defer r.mu.Unlock()
+	r.coverN++
+	switch st {
+	case "sat":
+		r.coverSat++
+	case "unsat":
+		r.engineErr = append(r.engineErr, "VACUOUS: the hypotheses of "+vc.Name+" are contradictory")
+	}
 }
 
 // noteExec records what one symbolic run relied on: stubs (assumed contracts of
@@ -428,6 +457,7 @@ func (r *Run) finish(checkerCmd string) int {
 		cov["contracts_not_applicable_at_a_site_body_verified_in_place"] = r.notApplicable
 	}
 	if r.Cross {
+		cov["vacuity_covers"] = map[string]int{"groups_with_hypotheses_checked": r.coverN, "hypotheses_satisfiable": r.coverSat}
 		cov["second_solver"] = map[string]int{"unsat_confirmed_by_a_second_solver": r.crossOK, "second_solver_gave_no_answer_in_time": r.crossNo}
 	}
 	kinds := map[string]int{}
